@@ -44,9 +44,56 @@ def exe():
     if "plain" not in _exe:
         _exe["plain"] = build.harness("thdm", "plain", ["thdm.cpp"])
         p = subprocess.run([_exe["plain"]], input="hello\n", stdout=subprocess.PIPE, text=True, timeout=60)
-        if "THDM-HARNESS 5 S96 A4 T17 Y216" not in p.stdout:
+        if "THDM-HARNESS 7 S96 A4 T17 Y216 X48 P46" not in p.stdout:
             raise InfraError("thdm harness: unexpected hello: %r" % p.stdout[:200])
+        check_accessors(_exe["plain"])
     return _exe["plain"]
+
+
+# ---- X block layout (harness/thdm.cpp block_X) -------------------------------------------
+X_ARR = {"Mhh": (slice(0, 2), (0, 1)), "MAh": (slice(2, 4), (2, 3)), "MHm": (slice(4, 6), (4, 5)),
+         "MFu": (slice(6, 9), (19, 20, 21)), "MFd": (slice(9, 12), (22, 23, 24)), "MFe": (slice(12, 15), (25, 26, 27)),
+         "MFv": (slice(15, 18), (28, 29, 30))}          # name -> (slice in X, indices of the indexed getter in S)
+X_VSQR, X_SINB, X_COSB, X_ETA, X_L5, X_L67, X_V1, X_V2, X_G1, X_G2, X_G3, X_M112, X_M222, X_EW1, X_EW2 = range(18, 33)
+X_OVL = ["ZH", "ZA", "ZP", "Vd", "Ud", "Vu", "Uu", "Ve", "Ue", "Gamma_u", "Gamma_d", "Gamma_l", "Pi_u", "Pi_d", "Pi_l"]   # 33..47
+P_MISSING = 45     # P block: 45 printed values + number of labels not found
+
+
+def declared_accessors(repo=None):
+    """(name/arity) of every get_* member function declared in a public section of the THDM headers"""
+    import os
+    import re
+    inc = os.path.join(repo or build.REPO, "include", "gm2calc")
+    found = set()
+    for hdr in ("THDM.hpp", "THDM_mass_eigenstates.hpp", "THDM_parameters.hpp"):
+        access, depth = None, 0
+        for ln in open(os.path.join(inc, hdr)):
+            code = ln.split("//")[0]
+            m = re.match(r"\s*(class|struct)\s+\w+[^;]*$", code)
+            if m and depth <= 1:
+                access = "private" if m.group(1) == "class" else "public"
+            m = re.match(r"\s*(public|protected|private)\s*:", code)
+            if m:
+                access = m.group(1)
+            if access == "public" and "using" not in code:
+                for fm in re.finditer(r"\b(get_\w+)\s*\(([^)]*)\)", code):
+                    args = fm.group(2).strip()
+                    found.add("%s/%d" % (fm.group(1), 0 if not args else args.count(",") + 1))
+            depth += code.count("{") - code.count("}")
+    return found
+
+
+def check_accessors(executable):
+    """every declared public accessor must be read by the harness (so that a new one cannot be forgotten)"""
+    p = subprocess.run([executable], input="accessors\n", stdout=subprocess.PIPE, text=True, timeout=60)
+    read = set(ln.split()[1] for ln in p.stdout.split("\n") if ln.startswith("ACC "))
+    decl = declared_accessors()
+    if len(decl) < 60:
+        raise InfraError("accessor enumeration of the THDM headers found only %d get_* declarations" % len(decl))
+    missing = sorted(decl - read)
+    if missing:
+        raise InfraError("public accessor(s) declared in the THDM headers but not read by harness/thdm.cpp: %s" % ", ".join(missing))
+    return len(decl)
 
 
 def mat_token(m):
@@ -108,10 +155,10 @@ def line(cid, c, ops):
 
 
 class Res:
-    __slots__ = ("id", "exc", "S", "A", "T", "Y", "raw")
+    __slots__ = ("id", "exc", "S", "A", "T", "Y", "X", "P", "raw")
 
     def __init__(self):
-        self.id = None; self.exc = None; self.S = self.A = self.T = self.Y = None; self.raw = {}
+        self.id = None; self.exc = None; self.S = self.A = self.T = self.Y = self.X = self.P = None; self.raw = {}
 
 
 def run_lines(lines, executable=None, timeout=3000):
@@ -154,7 +201,7 @@ def run_lines(lines, executable=None, timeout=3000):
 
 def run_cases(cases, ops, executable=None):
     """cases: list of case dicts; returns list of Res"""
-    return run_lines([line(i, c, ops) for i, c in enumerate(cases)], executable)
+    return run_lines([line(i, c, ops if isinstance(ops, str) else ops[i]) for i, c in enumerate(cases)], executable)
 
 
 def chunks(seq, n):
@@ -176,7 +223,7 @@ def history_mismatches(cases, ops, res):
     """re-run the cases in reversed order in a fresh harness process and compare bitwise (hex text):
     the result of a case must not depend on what was constructed before it in the same process.
     returns list of (index, what)"""
-    rev = run_lines([line(i, c, ops) for i, c in enumerate(cases)][::-1])[::-1]
+    rev = run_lines([line(i, c, ops if isinstance(ops, str) else ops[i]) for i, c in enumerate(cases)][::-1])[::-1]
     bad = []
     for i, (a, b) in enumerate(zip(res, rev)):
         if (a.exc or None) != (b.exc or None):
